@@ -25,7 +25,7 @@ from vlib import sim
 WATCHER_KEYS = ('numprocesses', 'graceful_timeout', 'warmup_delay', 'singleton', 'stop_signal',
                 'stop_children', 'respawn', 'autostart', 'priority', 'max_retry', 'max_age',
                 'max_age_variance', 'send_hup', 'args', 'env', 'copy_env', 'working_dir', 'shell',
-                'use_sockets', 'on_demand')
+                'use_sockets', 'on_demand', 'close_child_stdin', 'close_child_stdout', 'close_child_stderr')
 
 
 def tag_of(name):
